@@ -10,7 +10,7 @@ EXTENDS Naturals, Sequences, FiniteSets, TLC, Json, IOUtils
 Log == ndJsonDeserialize(IOEnv.TRACE_FILE)
 VARIABLE l
 
-\* node: [t, u, var, cyc, ref, den]    event: [nodes, root, rootu, members, salias, equiv, raised]
+\* node: [t, u, su, var, cyc, ref, uref, den, denu, uden]    event: [nodes, root, rootu, members, salias, equiv, raised]
 Mem(e, id) == IF id \in DOMAIN e.members THEN {e.members[id][i] : i \in 1..Len(e.members[id])} ELSE {}
 Stands(n, m) == IF n.cyc THEN n.den = m ELSE (n.t = m \/ n.u = m)
 
@@ -22,9 +22,13 @@ MembersFirst(e) == \A i \in 1..Len(e.nodes) : ~e.nodes[i].cyc =>
                       \A m \in Mem(e, e.nodes[i].su) \cup Mem(e, e.nodes[i].u) : \E j \in 1..(i - 1) : Stands(e.nodes[j], m)
 UnwrappedFully(e) == \A i \in 1..Len(e.nodes) : (~e.nodes[i].cyc /\ ~e.nodes[i].uref /\ ~e.nodes[i].ref) => e.nodes[i].u = e.nodes[i].su
 RefImpliesCyclic(e) == \A i \in 1..Len(e.nodes) : e.nodes[i].ref => e.nodes[i].cyc
+\* (a NewType / alias of an already visited type is a revisit of that type: denu is den unwrapped with typing only)
 CyclicImpliesRevisit(e) == \A i \in 1..Len(e.nodes) : e.nodes[i].cyc =>
-                             \/ e.nodes[i].den \in {e.root, e.rootu}
-                             \/ \E k \in 1..Len(e.nodes) : ~e.nodes[k].cyc /\ (e.nodes[k].t = e.nodes[i].den \/ e.nodes[k].u = e.nodes[i].den)
+                             \/ {e.nodes[i].den, e.nodes[i].denu} \cap {e.root, e.rootu} # {}
+                             \/ \E k \in 1..Len(e.nodes) : ~e.nodes[k].cyc /\ {e.nodes[k].t, e.nodes[k].u} \cap {e.nodes[i].den, e.nodes[i].denu} # {}
+\* the deferred node's own `unwrapped` denotes the type it stands for (or its unwrapped form), parameters included
+DeferredUnwrappedDenotes(e) == \A i \in 1..Len(e.nodes) : (e.nodes[i].cyc /\ e.nodes[i].den # "unresolvable") =>
+                             e.nodes[i].uden \in {e.nodes[i].den, e.nodes[i].denu}
 DeferredDenotesExactly(e) == \A i \in 1..Len(e.nodes) : e.nodes[i].cyc =>
                              /\ e.nodes[i].den # "unresolvable"
                              \* it stands for a direct member of the node(s) that depend on it
@@ -39,6 +43,7 @@ Clause(e) ==
   ELSE IF ~RootLast(e) THEN "RootLast"
   ELSE IF ~RefImpliesCyclic(e) THEN "RefImpliesCyclic"
   ELSE IF ~DeferredDenotesExactly(e) THEN "DeferredDenotesExactly"
+  ELSE IF ~DeferredUnwrappedDenotes(e) THEN "DeferredDenotesExactly.unwrapped"
   ELSE IF ~CyclicImpliesRevisit(e) THEN "CyclicImpliesRevisit"
   ELSE IF ~UnwrappedFully(e) THEN "NodeCarriesUnwrappedType"
   ELSE IF ~MembersFirst(e) THEN "MembersFirst"
